@@ -1,10 +1,14 @@
 package main
 
 import (
+	"encoding/hex"
+	"encoding/json"
 	"fmt"
 	"io/fs"
 	"os"
+	"strconv"
 	"strings"
+	"unicode/utf8"
 
 	"github.com/avfs/avfs"
 
@@ -22,6 +26,97 @@ type ent struct {
 	Kind string `json:"kind"`
 	Kids []ent  `json:"kids,omitempty"`
 	Mode uint32 `json:"mode,omitempty"` // chmod after creation: Unix bits 0o7777 (setuid 0o4000, setgid 0o2000, sticky 0o1000), +0o10000 marks "set"
+}
+
+// Names are byte strings and JSON strings are not: a name that is not valid
+// UTF-8 travels (worker -> main -> replay file) in hexadecimal next to a
+// readable rendering.
+type entJSON struct {
+	Name    string `json:"name"`
+	NameHex string `json:"name_hex,omitempty"`
+	Kind    string `json:"kind"`
+	Kids    []ent  `json:"kids,omitempty"`
+	Mode    uint32 `json:"mode,omitempty"`
+}
+
+func (e ent) MarshalJSON() ([]byte, error) {
+	j := entJSON{Name: e.Name, Kind: e.Kind, Kids: e.Kids, Mode: e.Mode}
+	j.Name, j.NameHex = toJSONString(e.Name)
+
+	return json.Marshal(j)
+}
+
+func (e *ent) UnmarshalJSON(b []byte) error {
+	var j entJSON
+	if err := json.Unmarshal(b, &j); err != nil {
+		return err
+	}
+
+	*e = ent{Name: fromJSONString(j.Name, j.NameHex), Kind: j.Kind, Kids: j.Kids, Mode: j.Mode}
+
+	return nil
+}
+
+// toJSONString returns s, or for a string that is not valid UTF-8 a printable
+// rendering and the bytes in hexadecimal.
+func toJSONString(s string) (text, hexBytes string) {
+	if utf8.ValidString(s) {
+		return s, ""
+	}
+
+	return printable(s), hex.EncodeToString([]byte(s))
+}
+
+func fromJSONString(text, hexBytes string) string {
+	if hexBytes == "" {
+		return text
+	}
+
+	b, err := hex.DecodeString(hexBytes)
+	if err != nil {
+		return text
+	}
+
+	return string(b)
+}
+
+// printable renders a byte string for signatures and messages: printable
+// ASCII as it is, other runes as <U+XXXX>, other bytes as <xx>.
+func printable(s string) string {
+	var b strings.Builder
+
+	for i := 0; i < len(s); {
+		r, w := utf8.DecodeRuneInString(s[i:])
+
+		switch {
+		case r == utf8.RuneError && w <= 1:
+			fmt.Fprintf(&b, "<%02x>", s[i])
+		case r < 0x20 || r == 0x7f:
+			fmt.Fprintf(&b, "<%02x>", r)
+		case r < 0x7f:
+			b.WriteRune(r)
+		default:
+			fmt.Fprintf(&b, "<U+%04X>", r)
+		}
+
+		i += w
+	}
+
+	return b.String()
+}
+
+// disp renders a path for messages: as it is if it is printable ASCII,
+// otherwise with Go escapes for what is not graphic or not UTF-8.
+func disp(s string) string {
+	for i := 0; i < len(s); i++ {
+		if s[i] < 0x20 || s[i] > 0x7e {
+			q := strconv.QuoteToGraphic(s)
+
+			return q[1 : len(q)-1]
+		}
+	}
+
+	return s
 }
 
 // modeSet marks ent.Mode as given (mode 0000 is a mode too).
@@ -72,14 +167,41 @@ type universe struct {
 	// other than the ones they were created with.
 	Modes     []modeVar // every mode is given to every single entry of every mode shape
 	ModeCombo []modeVar // every assignment of {unchanged} + these to all entries of the full shape
+
+	// The name-shape dimension. Lesson: names are byte strings, and code that
+	// lists or matches them compares, sorts and searches them: it narrows a
+	// sorted listing to "the names that start with this prefix", it computes an
+	// upper bound "just above" a prefix, it cuts a name at a rune or at a byte.
+	// All of that is invisible while every name is a single ASCII letter. The
+	// names of a level must share a prefix and continue with bytes at the edges
+	// of the ranges such code may assume: nothing (the prefix itself), an ASCII
+	// letter, 0x7e (last printable ASCII), 0x7f (last ASCII), a two-, three- and
+	// four-byte rune (first bytes 0xc3, 0xe2, 0xf4 - the four-byte one is the
+	// last rune, U+10FFFF), 0xff (last byte; not UTF-8 at all), next to a name
+	// outside the prefix; every subset of them must be listed in byte order by
+	// ReadDir, WalkDir and Glob, and the patterns must have each of these names
+	// as their literal prefix in front of each kind of wildcard.
+	ShapeNames  []string // the names of a level, in byte order
+	ShapeFlat   int      // flat trees: every non-empty subset of ShapeNames of at most this size (as files), and the full set
+	ShapeNested int      // nested trees: every non-empty subset of at most this size as directories that hold the full set as files
+	ShapeSeg2   []string // second (first) segment of the two-segment patterns whose other segment runs over all shape segments; nil = all of them
 }
+
+// shapeNames: "a" and its continuations at the edges of the byte ranges, and a
+// name that does not share the prefix. In byte order.
+var shapeNames = []string{"a", "ab", "a~", "a\x7f", "a\u00e9", "a\u20ac", "a\U0010ffff", "a\xff", "b"}
+
+const shapeLabel = "name-shape trees (after the mode trees): names {a, ab, a~, a<7f>, a<U+00E9>, a<U+20AC>, a<U+10FFFF>, a<ff>, b} (a shared prefix continued by nothing, an ASCII letter, the last printable and the last ASCII byte, a 2-, 3- and 4-byte rune, the byte 0xff; one name outside the prefix): "
 
 func universeFor(tier string) universe {
 	if tier == "thorough" {
 		return universe{
 			Label: "names {a,b,c} at top level, {a,b} below; top kinds {absent,file,dir,symlink>sibling,symlink>.,hardlink,empty file,abs symlink}; depth-2 kinds {absent,file,dir,symlink>sibling,symlink>.,hardlink}; patterns <= 3 segments; " +
-				"mode trees (first in the order): 8 shapes (full two-level tree and its mirror, file with a hard link in both orders, directory / file behind a relative / absolute symbolic link, directory holding a link to '.') x every single file, directory or hard-link name chmod'ed to every non-empty subset of {setuid,setgid,sticky} with its creation permissions, to 0000, 0777 and 7000, plus every assignment of {unchanged,setuid,setgid,sticky,all three} to the four entries of the full shape",
+				"mode trees (first in the order): 8 shapes (full two-level tree and its mirror, file with a hard link in both orders, directory / file behind a relative / absolute symbolic link, directory holding a link to '.') x every single file, directory or hard-link name chmod'ed to every non-empty subset of {setuid,setgid,sticky} with its creation permissions, to 0000, 0777 and 7000, plus every assignment of {unchanged,setuid,setgid,sticky,all three} to the four entries of the full shape; " +
+				shapeLabel + "every non-empty subset of the names as files in R; every subset of 1..3 names as directories that hold all the names as files; all names, every other one a directory holding all the names; " +
+				"patterns of the name-shape trees: segments {*} + every name x {literal, *, ?, [^b], ?*}, one segment, and on the trees with directories every two-segment pattern over these segments; ReadDir, WalkDir (all callback families at every visit index) and the helpers on every path of the tree",
 			TopNames: []string{"a", "b", "c"}, KidNames: []string{"a", "b"},
+			ShapeNames: shapeNames, ShapeFlat: len(shapeNames), ShapeNested: 3,
 			TopKinds: []string{"-", "f", "d", "s", ".", "h", "e", "S"},
 			KidKinds: []string{"-", "f", "d", "s", ".", "h"},
 			MaxSeg:   3,
@@ -95,8 +217,11 @@ func universeFor(tier string) universe {
 	// which c is absent), patterns of <= 2 segments
 	return universe{
 		Label: "names {a,b}; top kinds {absent,file,dir,symlink>sibling,symlink>.,hardlink,empty file,abs symlink}; depth-2 kinds {absent,file,dir,symlink>sibling,symlink>.,hardlink}; patterns <= 2 segments; " +
-			"mode trees (first in the order): 8 shapes (full two-level tree and its mirror, file with a hard link in both orders, directory / file behind a relative / absolute symbolic link, directory holding a link to '.') x every single file, directory or hard-link name chmod'ed to setuid, setgid, sticky or all three (creation permissions kept) and to permission bits 0700, plus every assignment of {unchanged, all three bits} to the four entries of the full shape",
+			"mode trees (first in the order): 8 shapes (full two-level tree and its mirror, file with a hard link in both orders, directory / file behind a relative / absolute symbolic link, directory holding a link to '.') x every single file, directory or hard-link name chmod'ed to setuid, setgid, sticky or all three (creation permissions kept) and to permission bits 0700, plus every assignment of {unchanged, all three bits} to the four entries of the full shape; " +
+			shapeLabel + "every subset of 1..3 names and the full set as files in R; every subset of 1..2 names as directories that hold all the names as files; all names, every other one a directory holding all the names; " +
+			"patterns of the name-shape trees: segments {*} + every name x {literal, *, ?, [^b], ?*}, one segment, and on the trees with directories two segments: every segment followed by {*, a*, a<U+00E9>} and * followed by every segment; ReadDir, WalkDir (all callback families at every visit index) and the helpers on every path of the tree",
 		TopNames: []string{"a", "b"}, KidNames: []string{"a", "b"},
+		ShapeNames: shapeNames, ShapeFlat: 3, ShapeNested: 2, ShapeSeg2: []string{"*", "a*", "a\u00e9"},
 		TopKinds:  []string{"-", "f", "d", "s", ".", "h", "e", "S"},
 		KidKinds:  []string{"-", "f", "d", "s", ".", "h"},
 		MaxSeg:    2,
@@ -287,10 +412,134 @@ func (u universe) modeTrees() [][]ent {
 }
 
 // trees enumerates every tree of the universe in canonical order: the mode
-// trees first (they are few and must not fall behind a deadline), then the
-// plain trees.
+// trees and the name-shape trees first (they are few and must not fall behind
+// a deadline), then the plain trees.
 func (u universe) trees() [][]ent {
-	return append(u.modeTrees(), u.plainTrees()...)
+	return append(append(u.modeTrees(), u.shapeTrees()...), u.plainTrees()...)
+}
+
+// shapeRange is the range of indices of the name-shape trees in trees().
+func (u universe) shapeRange() (from, to int) {
+	from = len(u.modeTrees())
+
+	return from, from + len(u.shapeTrees())
+}
+
+// subsets lists the non-empty subsets of {0..n-1} of at most max elements as
+// bit masks, smaller sets first, and within a size in ascending mask order.
+func subsets(n, max int) []int {
+	var out []int
+
+	for size := 1; size <= max && size <= n; size++ {
+		for m := 1; m < 1<<n; m++ {
+			c := 0
+			for x := m; x != 0; x &= x - 1 {
+				c++
+			}
+
+			if c == size {
+				out = append(out, m)
+			}
+		}
+	}
+
+	return out
+}
+
+// shapeTrees enumerates the name-shape dimension. The entries of these trees
+// are the names that exist (no "absent" entries), all of them files or
+// directories with the mode they were created with:
+//
+//   - flat: every subset of the names as files in R - which names are in the
+//     listing decides where a search in it lands;
+//   - nested: every small subset as directories, each holding all the names
+//     as files - the listing below a matched or walked directory, and
+//     directories that are visited in the order of their names;
+//   - mixed: all the names, every other one a directory - a walk must order
+//     files and directories alike.
+func (u universe) shapeTrees() [][]ent {
+	n := len(u.ShapeNames)
+	if n == 0 {
+		return nil
+	}
+
+	var out [][]ent
+
+	level := func(mask int, kind func(i int) string, kids []ent) []ent {
+		var es []ent
+
+		for i, name := range u.ShapeNames {
+			if mask&(1<<i) == 0 {
+				continue
+			}
+
+			e := ent{Name: name, Kind: kind(i)}
+			if e.Kind == "d" {
+				e.Kids = kids
+			}
+
+			es = append(es, e)
+		}
+
+		return es
+	}
+
+	file := func(int) string { return "f" }
+	dir := func(int) string { return "d" }
+	full := 1<<n - 1
+
+	for _, m := range subsets(n, u.ShapeFlat) {
+		out = append(out, level(m, file, nil))
+	}
+
+	if u.ShapeFlat < n {
+		out = append(out, level(full, file, nil))
+	}
+
+	all := level(full, file, nil)
+
+	for _, m := range subsets(n, u.ShapeNested) {
+		out = append(out, level(m, dir, all))
+	}
+
+	out = append(out, level(full, func(i int) string {
+		if i%2 == 1 {
+			return "d"
+		}
+
+		return "e"
+	}, all))
+
+	return out
+}
+
+// treePaths lists the R-relative paths of the entries of a tree, level by level.
+func treePaths(es []ent) []string {
+	var top, below []string
+
+	for _, e := range es {
+		if e.Kind == "-" {
+			continue
+		}
+
+		top = append(top, e.Name)
+
+		for _, p := range treePaths(e.Kids) {
+			below = append(below, e.Name+"/"+p)
+		}
+	}
+
+	return append(top, below...)
+}
+
+func hasDir(es []ent) bool {
+	for _, e := range es {
+		if e.Kind == "d" {
+			return true
+		}
+	}
+
+	return false
 }
 
 // plainTrees enumerates every tree over the kinds, all entries with the mode
@@ -350,7 +599,7 @@ func treeSpec(es []ent) string {
 	var s []string
 
 	for _, e := range es {
-		x := e.Name + "=" + e.Kind
+		x := printable(e.Name) + "=" + e.Kind
 		if e.Kind == "d" {
 			x += "{" + treeSpec(e.Kids) + "}"
 		}
@@ -392,15 +641,15 @@ type mop struct {
 func (m mop) String() string {
 	switch m.Op {
 	case "Mkdir":
-		return fmt.Sprintf("Mkdir(R/%s,%#o)", m.A, m.Perm)
+		return fmt.Sprintf("Mkdir(R/%s,%#o)", disp(m.A), m.Perm)
 	case "WriteFile":
-		return fmt.Sprintf("WriteFile(R/%s,%q,%#o)", m.A, m.B, m.Perm)
+		return fmt.Sprintf("WriteFile(R/%s,%q,%#o)", disp(m.A), m.B, m.Perm)
 	case "Symlink":
-		return fmt.Sprintf("Symlink(%q,R/%s)", strings.Replace(m.B, "$R", "R", 1), m.A)
+		return fmt.Sprintf("Symlink(%q,R/%s)", strings.Replace(m.B, "$R", "R", 1), disp(m.A))
 	case "Link":
-		return fmt.Sprintf("Link(R/%s,R/%s)", m.B, m.A)
+		return fmt.Sprintf("Link(R/%s,R/%s)", disp(m.B), disp(m.A))
 	case "Chmod":
-		return fmt.Sprintf("Chmod(R/%s,%#o)", m.A, m.Perm)
+		return fmt.Sprintf("Chmod(R/%s,%#o)", disp(m.A), m.Perm)
 	}
 
 	return m.Op
